@@ -59,7 +59,7 @@ pub fn stubs_for(e: Engine) -> Vec<&'static str> {
         Engine::Crash => vec!["process crash (on-disk image rebuilt from the recorded I/O prefix)"],
         Engine::Wal | Engine::Btree => vec!["everything above the storage component"],
         Engine::Thread => vec!["OS scheduler (baton scheduler at every lock / latch / queue point)", "idle poll and wall clock"],
-        Engine::Wire => vec!["TCP socket (simulated byte stream)", "the server's accept loop and the TcpStream shell of its client loop (the loop body - receive, process_request, send - is the real code, reached through the guarded export in axmos_server.rs)", "client concurrency in served histories (one driver thread issues every request)"],
+        Engine::Wire => vec!["TCP socket (simulated byte stream; real loopback sockets on every 64th run index)", "the server's accept loop; on the simulated streams also the TcpStream shell of its client loop (the loop body - receive, process_request, send - is the real code, reached through the guarded export in axmos_server.rs; the loopback runs use the real run_client_loop)", "client concurrency in served histories (one driver thread issues every request)"],
     }
 }
 
